@@ -5,6 +5,8 @@ import (
 	"encoding/json"
 	"errors"
 	"fmt"
+	"os"
+	"runtime"
 	"sort"
 	"strconv"
 	"strings"
@@ -494,6 +496,10 @@ func (w *world) exec(i int, st Step) {
 		ctx, cancel := context.WithCancel(context.Background())
 		if st.D > 0 {
 			ctx, cancel = context.WithTimeout(context.Background(), time.Duration(st.D)*time.Millisecond)
+		} else if st.D < 0 {
+			// a context that can never end: only a reply or the end of the
+			// connection completes the push
+			ctx, cancel = context.Background(), func() {}
 		}
 		w.mu.Lock()
 		w.pushCtx[st.K] = cancel
@@ -649,6 +655,10 @@ func Run(t *testing.T, sc Scenario) (h *History) {
 	defer func() {
 		if p := recover(); p != nil {
 			h.BubbleErr = fmt.Sprint(p)
+			if os.Getenv("VERIF_DEBUG") != "" {
+				buf := make([]byte, 1<<20)
+				fmt.Printf("goroutines at bubble failure:\n%s\n", buf[:runtime.Stack(buf, true)])
+			}
 		}
 	}()
 	sched := &Sched{Salt: sc.Cfg.Salt, Pins: sc.Cfg.Pins, Off: sc.Cfg.NoHooks}
